@@ -455,7 +455,9 @@ def check_builder_setters(F, R, adt, inst="builder-setter", skip=r"^(new|default
             continue
         if re.sub(r"<.*", "", b.locals[1].strip()) != adt or re.sub(r"<.*", "", b.locals[0].strip()) != adt:
             continue
-        rows = D.Deep(F, b, max_paths=50, inline=False).run()
+        # (callees stay opaque, except the ADT's own private helpers — `self.map_runner(|r| r.before(f))` — which are part of the spelling)
+        own_private = lambda cb: (cb.impl or {}).get("self_adt") == adt and not (cb.impl or {}).get("trait") and getattr(cb, "vis", "Public") != "Public"
+        rows = D.Deep(F, b, max_paths=50, inline_only=own_private).run()
         if not rows or any(p.cut for p in rows):
             continue
         changed = {}
